@@ -194,6 +194,31 @@ class ExtMixin:
             return R(Unknown(deps_of(v), ty="int"))
         if name == "float":
             return R(Unknown(deps_of(a[0]) if a else (), ty="float"))
+        if name == "map" and len(args) == 2:
+            items = self.seq_items(args[1], st)
+            if items is not None:
+                # eager evaluation in order (the package only consumes map() results at once)
+                work = [(st, [])]
+                for it_ in items:
+                    nxt = []
+                    for s, acc in work:
+                        for s2, v in self.call_value(node, args[0], [it_], {}, s, fr):
+                            if isinstance(v, Raised):
+                                return [(s2, v)]
+                            nxt.append((s2, acc + [v]))
+                    work = nxt
+                return [(s, s.alloc("list", items=acc)) for s, acc in work]
+        if name in ("list", "tuple") and len(a) == 1:
+            items = self.seq_items(args[0], st)
+            if items is not None:
+                return R(st.alloc("list", items=list(items)) if name == "list" else Seq(list(items), "tuple"))
+        if name == "divmod" and len(a) == 2:
+            q = self.binop(ast.FloorDiv(), a[0], a[1], st, fr, node)
+            r = self.binop(ast.Mod(), a[0], a[1], st, fr, node)
+            for x in (q, r):
+                if isinstance(x, Raised):
+                    return R(x)
+            return R(Seq([q, r], "tuple"))
         if name == "abs" and a:
             c = const_of(a[0])
             if c is not None:
@@ -261,6 +286,50 @@ class ExtMixin:
             return R(Sym(("exc", name), "exc", notnone=True))
         if name == "struct.pack":
             return R(self.struct_pack(a, st, fr, node))
+        if name == "int.from_bytes" and a:
+            order = a[1] if len(a) > 1 else kw.get("byteorder", Const("big"))
+            signed = kw.get("signed", a[2] if len(a) > 2 else Const(False))
+            ln = self.length_of(a[0], st)
+            n_ = const_of(norm(ln)) if ln is not None else None
+            code = {1: "b", 2: "h", 4: "i", 8: "q"}.get(n_)
+            if code is not None and isinstance(norm(order), Const) and norm(order).v in ("little", "big") and isinstance(norm(signed), Const):
+                fmt = ("<" if norm(order).v == "little" else ">") + (code if norm(signed).v else code.upper())
+                r = self.struct_unpack([Const(fmt), a[0]], st, fr, node)
+                if isinstance(r, Seq):
+                    return R(r.items[0])
+                return R(r)
+            lo, hi = (0, None)
+            if n_ is not None and isinstance(norm(signed), Const):
+                lo, hi = ((-(1 << (8 * n_ - 1)), (1 << (8 * n_ - 1)) - 1) if norm(signed).v else (0, (1 << (8 * n_)) - 1)) if n_ else (0, 0)
+            nm = st.fresh_name("frombytes")
+            rngs = dict(st.extra.get("symrng", {}))
+            rngs[nm] = (lo, hi)
+            st.extra["symrng"] = rngs
+            return R(Sym(nm, "int", rng=(lo, hi), of=a[0], deps=frozenset(deps_of(a[0]))))
+        if name == "struct.pack_into" and len(a) >= 3:
+            buf, off = args[1], const_of(a[2])
+            r = self.struct_pack([a[0]] + list(a[3:]), st, fr, node)
+            if isinstance(r, Raised):
+                return R(r)
+            if isinstance(buf, Ref) and buf.kind == "bytearray":
+                cell = st.heap[buf.ident]
+                sz = const_of(norm(r.length())) if isinstance(r, Bytes) else None
+                if not cell.opaque and sz is not None and off == 0 and len(cell.items) == sz and r.parts and r.parts[0][0][0] == "pack":
+                    # the whole buffer now is exactly this packed image: remembered so that bytes(buffer) keeps the field provenance
+                    cell.fields = dict(cell.fields or {})
+                    cell.fields["__packed__"] = r
+                    self.note_mutation(st, fr, node, buf)
+                    return R(Const(None))
+                if not cell.opaque and sz is not None and isinstance(off, int) and 0 <= off and off + sz <= len(cell.items):
+                    for j in range(sz):
+                        cell.items[off + j] = Sym(st.fresh_name("packedbyte"), "int", rng=(0, 255), deps=frozenset().union(*[deps_of(norm(x)) for x in a[3:]]) if a[3:] else frozenset())
+                    (cell.fields or {}).pop("__packed__", None)
+                    self.note_mutation(st, fr, node, buf)
+                    return R(Const(None))
+                if isinstance(off, int) and sz is not None and not cell.opaque and off + sz > len(cell.items):
+                    return R(Raised("struct.error", node, fr.func, "pack_into beyond the buffer"))
+                cell.opaque = True
+            return R(Const(None))
         if name == "struct.unpack_from":
             off = a[2] if len(a) > 2 else kw.get("offset", Const(0))
             return R(self.struct_unpack(a, st, fr, node, offset=norm(off)))
@@ -352,6 +421,10 @@ class ExtMixin:
             if kind == "bytearray" and c <= 128:
                 return st.alloc("bytearray", items=[Const(0)] * c)
             return Bytes([(("fill", 0), Const(c))], kind)
+        if isinstance(v, Ref) and v.kind == "bytearray" and (st.heap[v.ident].fields or {}).get("__packed__") is not None:
+            pk = st.heap[v.ident].fields["__packed__"]
+            if kind == "bytes":
+                return Bytes(list(pk.parts), "bytes")
         items = self.seq_items(v, st)
         if items is not None:
             for it in items:
@@ -437,7 +510,10 @@ class ExtMixin:
                     room = lin_add(lin_add(l, lo_, -1), Lin({}, sz), -1)      # len - offset - size >= 0
                     ok = self.lin_sign(room, st) in (">0", ">=0", "==0") and self.lin_sign(lo_, st) in (">0", ">=0", "==0")
         self.event(st, fr, "unpack", node, (fmt, a[1], ln, ok) if offset is None else (fmt, a[1], ln, ok, offset))
-        cb = self.concrete_bytes(a[1], st) if offset is None else None
+        cb = self.concrete_bytes(a[1], st)
+        if cb is not None and offset is not None:
+            o_ = const_of(offset)
+            cb = cb[o_:o_ + sz] if isinstance(o_, int) and 0 <= o_ and o_ + sz <= len(cb) else None
         if cb is not None and len(cb) == sz and order in ("", "<", "=", "@") and all(c in "bBhHiIlLqQ" for c in codes):
             # constant folding of a fully known little-endian image (the analyser's own decoder)
             vals, off = [], 0
@@ -465,6 +541,26 @@ class ExtMixin:
         base = norm(base)
         R = lambda v: [(st, v)]  # noqa: E731
         p = path_text(node.func) if isinstance(node, ast.Call) else None
+        if attr == "from_bytes" and isinstance(base, Unknown) and base.why == "name int":
+            return self.ext_call("int.from_bytes", args, kw, st, fr, node)
+        if isinstance(base, Const) and isinstance(base.v, dict):
+            if attr == "get" and a:
+                dflt = a[1] if len(a) > 1 else kw.get("default", Const(None))
+                if isinstance(a[0], Const):
+                    try:
+                        return R(self.lift(base.v[a[0].v], st) if a[0].v in base.v else dflt)
+                    except TypeError:
+                        return R(dflt)
+                from .interp_stmt import ForkIndex
+                return self.fork_index(ForkIndex([(Const(kk), self.lift(vv, st)) for kk, vv in base.v.items()], dflt), a[0], st, fr, node)
+            if attr in ("keys", "values", "items") and not a:
+                seq = {"keys": list(base.v.keys()), "values": list(base.v.values()), "items": [tuple(x) for x in base.v.items()]}[attr]
+                return R(self.lift(tuple(seq), st))
+        if isinstance(base, Const) and isinstance(base.v, (tuple, list, str)) and attr in ("index", "count") and len(a) == 1 and isinstance(a[0], Const):
+            try:
+                return R(Const(getattr(base.v, attr)(a[0].v)))
+            except ValueError:
+                return R(Raised("ValueError", node, fr.func, "not in the table"))
         if isinstance(base, Ref) and base.kind in ("list", "bytearray", "set", "dict"):
             cell = st.heap[base.ident]
             if attr in ("append", "add") and len(a) == 1:
@@ -473,6 +569,14 @@ class ExtMixin:
                     cell.items.append(a[0])
                 self.note_mutation(st, fr, node, base)
                 return R(Const(None))
+            if attr == "extend" and len(a) == 1 and base.kind in ("list", "bytearray"):
+                items = self.seq_items(args[0], st)
+                if items is not None and not cell.opaque:
+                    for it_ in items:
+                        self.event(st, fr, "append", node, (base, it_, path_text(node.func.value)))
+                        cell.items.append(it_)
+                    self.note_mutation(st, fr, node, base)
+                    return R(Const(None))
             if attr == "pop":
                 self.event(st, fr, "pop", node, (base, a[0] if a else None, path_text(node.func.value)))
                 self.note_mutation(st, fr, node, base)
@@ -493,8 +597,18 @@ class ExtMixin:
                 return R(Const(None))
             if attr == "items" and base.kind == "dict":
                 return R(Sym(st.fresh_name("items"), "dictitems", label=base.label or path_text(node.func.value) or "dict", of=base, notnone=True))
-            if attr in ("keys", "values"):
-                return R(Sym(st.fresh_name(attr), "dictitems", label=base.label or "dict", of=base, notnone=True))
+            if attr in ("keys", "values") and base.kind == "dict":
+                return R(Sym(st.fresh_name(attr), "dictitems", label=base.label or path_text(node.func.value) or "dict", of=base, notnone=True, view=attr))
+            if attr == "get" and a and (cell.fields or {}).get("__table__") is not None:
+                tbl = cell.fields["__table__"]
+                dflt = args[1] if len(args) > 1 else kw.get("default", Const(None))
+                if isinstance(a[0], Const):
+                    for kk, vv in tbl:
+                        if kk.v == a[0].v:
+                            return R(vv)
+                    return R(dflt)
+                from .interp_stmt import ForkIndex
+                return self.fork_index(ForkIndex(list(tbl), dflt), a[0], st, fr, node)
             if attr == "get":
                 return R(Unknown(why="dict.get"))
             if attr == "decode":
@@ -518,7 +632,27 @@ class ExtMixin:
             iv = interval(base)
             ok = n is not None and iv is not None and None not in iv and 0 <= iv[0] and iv[1] < (1 << (8 * n))
             self.event(st, fr, "to_bytes", node, (base, a, ok))
+            order = a[1] if len(a) > 1 else kw.get("byteorder", Const("big"))
+            signed = kw.get("signed", a[2] if len(a) > 2 else Const(False))
+            code = {1: "b", 2: "h", 4: "i", 8: "q"}.get(n)
+            if code is not None and isinstance(norm(order), Const) and norm(order).v in ("little", "big") and isinstance(norm(signed), Const):
+                # the same bytes as struct.pack with the equivalent format: keeps the field provenance the layout rules read
+                fmt = ("<" if norm(order).v == "little" else ">") + (code if norm(signed).v else code.upper())
+                return R(Bytes([(("pack", fmt, (base,)), Const(n))], "bytes"))
             return R(Bytes([(("to_bytes", self.vkey(base), tuple(self.vkey(x) for x in a[1:])), a[0])], "bytes"))
+        if attr == "join" and len(a) == 1 and isinstance(base, Bytes):
+            sep_empty = const_of(norm(base.length())) == 0
+            items = self.seq_items(a[0], st)
+            if sep_empty and items is not None:
+                parts = []
+                for it_ in items:
+                    b_ = self.as_bytes(it_, st)
+                    if b_ is None:
+                        parts = None
+                        break
+                    parts.extend(b_.parts)
+                if parts is not None:
+                    return R(Bytes(parts, "bytes"))
         if attr == "decode" and bt in ("bytes", "bytearray", "byteslike", None):
             s2 = st.fork()
             self.budget()
